@@ -11,6 +11,8 @@ for l in open(os.path.join(V, 'properties.jsonl')):
     props[d['id']] = d
 want = sys.argv[2:] or sorted(props)
 os.makedirs('/tmp/wt', exist_ok=True)
+hint = os.environ.get('SEED_HINT', '')
+hint = (hint + '\n') if hint else ''
 for pid in want:
     p = props[pid]
     wt = f'/tmp/wt/{pid}{suffix}'
@@ -27,7 +29,7 @@ for pid in want:
         prev = ('\nIMPORTANT: other engineers already produced the following changes for this property; yours must be DIFFERENT in kind and located in a '
                 'different function / mechanism (ideally exercising a different clause of the property statement, a different module or class - e.g. one of the less prominent dataset classes, constructors or helper functions that the property also covers - or a different kind of input, history or parameter value):\n---\n'
                 + '\n---\n'.join(earlier) + '\n---\n')
-    body = f"""You are testing how well a verification harness detects subtle bugs. You get ONE semantic property of the Python library fgnt/lazy_dataset (a lazy dataset pipeline library: map/filter/slice/shuffle/batch/zip/cache combinators plus threaded/process prefetch) and your own scratch git worktree of the repository at {wt} (work ONLY inside that directory; never touch /repo or /verif, and never run pytest or anything else with /repo as working directory (it would overwrite files there); do not run git commands other than `git -C {wt} diff` / `git -C {wt} status`).
+    body = f"""You are testing how well a verification harness detects subtle bugs. You get ONE semantic property of the Python library fgnt/lazy_dataset (a lazy dataset pipeline library: map/filter/slice/shuffle/batch/zip/cache combinators plus threaded/process prefetch) and your own scratch git worktree of the repository at {wt} (work ONLY inside that directory; never touch /repo or /verif - do not read, list or search anything under /verif either - and never run pytest or anything else with /repo as working directory (it would overwrite files there); do not run git commands other than `git -C {wt} diff` / `git -C {wt} status`).
 
 The property:
 ---
@@ -44,7 +46,7 @@ Deliver, inside {wt}:
   1. the source change itself (leave it applied in the worktree);
   2. `{wt}/demo.py`: a small self-contained program (put ALL of its logic, including any os.environ changes and imports of lazy_dataset, inside `def main()` guarded by `if __name__ == '__main__':` - the test suite's doctest collection imports every .py file in the tree, so an unguarded demo changes the suite result) (it inserts the repository root given as sys.argv[1] at sys.path[0], imports lazy_dataset from there) that exits 0 on the ORIGINAL code and exits 1 (printing what went wrong) on the CHANGED code; verify both: run it with `{wt}` (must fail) and with `/repo` (must pass; /repo is the unchanged library, read-only for you; run it from a cwd other than /repo with PYTHONDONTWRITEBYTECODE=1);
   3. `{wt}/NOTES.md`: 5-10 lines: what you changed, why it breaks the property, what exactly is needed for it to manifest, and the pytest tail line you observed with the change applied.
-Spend your effort on making the change subtle and realistic rather than exotic. Final answer: a short summary (the diff, what it needs to manifest, demo results on both trees, pytest tail).
+{hint}Spend your effort on making the change subtle and realistic rather than exotic. Final answer: a short summary (the diff, what it needs to manifest, demo results on both trees, pytest tail).
 """
     open(f'/tmp/wt/TASK_{pid}{suffix}.md', 'w').write(body)
     print('wrote', f'/tmp/wt/TASK_{pid}{suffix}.md', len(body))
